@@ -810,9 +810,10 @@ fn cg_host_import_inner(idx: u32, raw: &[u64], ret: &mut u64) {
 const PROT_RW: i32 = 3;
 const MAP_PRIVATE_ANON_32BIT: i32 = 0x02 | 0x20 | 0x40;
 
-fn res_by_type(import_ctx: bool, rid: TypeId) -> Option<usize> {
+fn res_by_type(fi: usize, rid: TypeId) -> Option<usize> {
     let hh = h();
-    let exported = plan::resource_is_exported(&hh.resolve, hh.world, import_ctx, rid);
+    let f = &hh.funcs[fi];
+    let exported = plan::resource_is_exported(&hh.resolve, hh.world, f.import, f.iface.is_none(), rid);
     let id = plan::dealias_id(&hh.resolve, rid);
     hh.resources.iter().find(|r| r.id == id && r.exported == exported).map(|r| r.idx)
 }
@@ -988,7 +989,7 @@ fn script_handles(fi: usize, pos: u8, ty: &Type, v: &Val, call: u64) -> Result<V
     let mut lent_reps: Vec<u32> = vec![];
     map_handles(&a, ty, v, &mut |hid, _| {
         let (rid, borrow) = handle_info(hid);
-        let res = res_by_type(import, rid).ok_or("resource not in the world's tables")?;
+        let res = res_by_type(fi, rid).ok_or("resource not in the world's tables")?;
         let exported = h().resources[res].exported;
         Ok(match (pos, borrow, exported) {
             // host gives the guest a fresh own / borrow handle of an imported resource
@@ -1028,7 +1029,7 @@ fn res_check_lifted_import_args(fi: usize, tys: &[Type], got: Vec<Val>) -> Vec<V
     for (t, v) in tys.iter().zip(got) {
         let r = map_handles(&a, t, &v, &mut |hid, x| {
             let (rid, borrow) = handle_info(hid);
-            let res = res_by_type(true, rid).ok_or("?")?;
+            let res = res_by_type(fi, rid).ok_or("?")?;
             match h().res.table.get(&x).cloned() {
                 Some(e) if e.res == res && (e.own || borrow) => {
                     if !borrow {
@@ -1270,7 +1271,7 @@ fn run_export(fi: usize, set: u64) {
                     // handles of fresh objects: validate against the table, then normalise
                     let got = map_handles(&a, t, &got, &mut |hid, x| {
                         let (rid, _) = handle_info(hid);
-                        let res = res_by_type(false, rid).ok_or("?")?;
+                        let res = res_by_type(fi, rid).ok_or("?")?;
                         match h().res.table.get(&x).cloned() {
                             Some(e) if e.res == res && e.own => {
                                 h().res.table.remove(&x);
